@@ -211,3 +211,6 @@ func StubMD5(content string) string {
 	}
 	return string(out)
 }
+
+// IsNetworkError stands in for util.IsNetworkError (errors.As needs reflection): harness errors are not network errors.
+func IsNetworkError(err error) bool { return false }
